@@ -53,7 +53,7 @@ for P in sorted(os.listdir(root)):
         dst = os.path.join(HERE, "seeded", "%s%s_%s" % (prefix, P, X))
         os.makedirs(dst, exist_ok=True)
         for f in os.listdir(v):
-            if f in ("patch.diff", "demo.py", "demo.sh", "demo.diff", "run_demo.sh", "README.md"):
+            if f in ("patch.diff", "patch_prefix.diff", "demo.py", "demo.sh", "demo.diff", "run_demo.sh", "README.md"):
                 shutil.copy(os.path.join(v, f), os.path.join(dst, f))
         st, info = ev.get((P, X), ("NOT-EVALUATED", {}))
         key = "%s%s_%s" % (prefix, P, X)
